@@ -221,6 +221,20 @@ def check(chk: Check) -> None:
                             n_pass = len([1 for ff, idx, e, recv in ce if ff == f])
                             if n_pass > 1:
                                 problems.append('the elements of self.%s are traversed %d times' % (f, n_pass))
+                # ... and before the node's own complaint: an error the node itself raises about its operands (wrong types, bad
+                # index) comes after every operand was evaluated - a test that stops at the first operand skips the effects of the others
+                for p in om.eval_paths(F, cls, op):
+                    if p.normal or p.outcome[0] != 'raise':
+                        continue
+                    own = [e for e in p.events if e.kind == 'raise' and not e.depth()]
+                    if not own:
+                        continue            # raised inside the charge step or a callee
+                    ce = child_events(F, p, selft, stt)
+                    done = {f_ for f_, _i, _e, _r in ce}
+                    for f in opfields:
+                        if kinds.get(f) == 'op' and f not in done:
+                            problems.append('`%s` (line %d) is raised before self.%s was evaluated: its effects are skipped on this error path' % (
+                                own[-1].text()[:60], own[-1].line, f))
                 if len(seqs) > 1:
                     problems.append('children are evaluated in different orders on different paths: %s' % sorted(seqs, key=str))
                 if seqs:
